@@ -26,6 +26,7 @@
     norm n i            C10Path    (i mod n) as a natural number
     ssLoopC / backoffC / searchsortedCdfC  C10Reads  the searches with aborting reads
     Rounding, Fl R      C10Round   abstract rounded arithmetic
+    svOnly, assignments C10Hist    the fold of the state_values setter over the assignments of a history
 -/
 import Mathlib.Order.Defs.LinearOrder
 import Mathlib.Algebra.Order.Ring.Rat
@@ -39,6 +40,7 @@ import QEProofs.Lemmas.C10Reads
 import QEProofs.Lemmas.C10Sv
 import QEProofs.Lemmas.C10Accept
 import QEProofs.Lemmas.C10Round
+import QEProofs.Lemmas.C10Hist
 namespace QE.C10
 variable {α : Type}
 
@@ -646,5 +648,73 @@ theorem path_follows_transition_law_sparse_rat {n : Nat} {data : List Rat} {indi
       (fun x hx => hnn x (by unfold slice at hx; exact List.mem_of_mem_drop (List.mem_of_mem_take hx)))
       (hex s hs) hc)
     init hinit us hus
+
+/-! ## 11. histories on one object; argument forms -/
+
+/-- **History theorem.**  Let `h` be any sequence of `state_values` assignments and
+    `simulate`/`simulate_indices` calls on one chain object starting from `state_values = sv0`, and
+    `op` a further operation.  The outputs of `h ++ [op]` are those of `h` followed by the output of
+    `op` executed on the *current* `state_values` — and those current values are the fold of the setter
+    over the assignments of `h` alone (`svOnly`): they do not depend on the chain, on which calls were
+    made before, on their arguments, or on any random number.  So every call depends only on
+    `(P, current state_values, its arguments, its uniforms)`: there is no hidden per-object memory
+    (e.g. a value→index table surviving a re-assignment). -/
+theorem history_call_depends_only_on_current_state (n : Nat) (f : Nat → List α → Option (List Nat))
+    (sv0 : Option (List Int)) (h : List (HOp α)) (op : HOp α) :
+    runH n f sv0 (h ++ [op]) = runH n f sv0 h ++ [(stepH n f (svOnly n sv0 (assignments h)) op).2] ∧
+    finalSV n f sv0 h = svOnly n sv0 (assignments h) := by
+  rw [runH_append, finalSV_eq_svOnly]
+  exact ⟨rfl, rfl⟩
+
+/-- two histories (on the same chain) that end with the same `state_values` answer the next call
+    identically -/
+theorem same_state_values_same_answer (n : Nat) (f : Nat → List α → Option (List Nat))
+    (sv1 sv2 : Option (List Int)) (h1 h2 : List (HOp α)) (op : HOp α)
+    (heq : svOnly n sv1 (assignments h1) = svOnly n sv2 (assignments h2)) :
+    (runH n f sv1 (h1 ++ [op])).getLast? = (runH n f sv2 (h2 ++ [op])).getLast? := by
+  rw [(history_call_depends_only_on_current_state n f sv1 h1 op).1,
+      (history_call_depends_only_on_current_state n f sv2 h2 op).1, heq]
+  simp
+
+/-- what one call returns, by cases on the current `state_values`: `simulate_indices` ignores them;
+    `simulate` without state values is the index version behind `get_index`; `simulate` with state
+    values is `simulateSV` on exactly those values (`simulate_with_state_values` describes it);
+    and a call never changes the state. -/
+theorem call_semantics (n : Nat) (f : Nat → List α → Option (List Nat)) (sv : Option (List Int))
+    (a : InitArg) (i : Init) (l : List Int) (reps : Option Nat) (drawn : List Nat) (ts : Nat)
+    (us : List (List α)) :
+    (stepH n f sv (.call false a reps drawn ts us)).2 = .idx (simulateIndicesA n f a reps drawn ts us) ∧
+    (stepH n f none (.call true a reps drawn ts us)).2 = .idx (simulateA n f a reps drawn ts us) ∧
+    (stepH n f (some l) (.call true (.ok i) reps drawn ts us)).2
+      = .vals (simulateSV l n f i reps drawn ts us) ∧
+    ∀ via, (stepH n f sv (.call via a reps drawn ts us)).1 = sv :=
+  ⟨rfl, rfl, rfl, fun via => stepH_call_state n f sv via a reps drawn ts us⟩
+
+/-- **Argument forms of `init`.** Every `numbers.Integral` scalar and every array-like of such is
+    the plain request (`.ok`); a scalar that is not `numbers.Integral` (0-d array, `np.bool_`, `float`)
+    is refused by both entry points; an array whose elements are not `Integral` after `np.asarray`
+    (bool / float arrays) is an ordinary index array for `simulate_indices` and is refused by
+    `simulate` unless empty. -/
+theorem init_forms_spec (n : Nat) (f : Nat → List α → Option (List Nat)) (i : Init) (l : List Int)
+    (reps : Option Nat) (drawn : List Nat) (ts : Nat) (us : List (List α)) :
+    simulateIndicesA n f (.ok i) reps drawn ts us = simulateIndices n f i reps drawn ts us ∧
+    simulateA n f (.ok i) reps drawn ts us = simulate n f i reps drawn ts us ∧
+    simulateIndicesA n f .nonIntegral reps drawn ts us = .error .valueError ∧
+    simulateA n f .nonIntegral reps drawn ts us = .error .valueError ∧
+    simulateIndicesA n f (.arrNI l) reps drawn ts us = simulateIndices n f (.arr l) reps drawn ts us ∧
+    (l ≠ [] → simulateA n f (.arrNI l) reps drawn ts us = .error .valueError) := by
+  refine ⟨rfl, rfl, rfl, rfl, rfl, ?_⟩
+  intro hl
+  cases l with
+  | nil => exact absurd rfl hl
+  | cons _ _ => rfl
+
+/-- non-vacuity: after assigning a permuted labelling the same value starts at its new position -/
+example : (runH 2 (pathDense ([[1, 4], [4, 4]] : List (List Int))) (some [7, 9])
+    [.call true (.ok (.scalar 9)) none [] 1 [[]], .setSV (some [9, 7]),
+     .call true (.ok (.scalar 9)) none [] 1 [[]]]).length = 3 := by rfl
+example : svOnly 2 (some [7, 9]) (assignments
+    ([.call true (.ok (.scalar 9)) none [] 1 [[]], .setSV (some [9, 7, 1]), .setSV (some [9, 7])] : List (HOp Int)))
+    = some [9, 7] := by rfl
 
 end QE.C10
